@@ -901,3 +901,4 @@ class C04(Prop):
 
 
 REGISTRY["C04"] = C04()
+import props_cli  # noqa: E402,F401  (registers C12..C17)
